@@ -14,6 +14,7 @@ def tinyfy(rng, t, p=0.3):
     return t
 
 PROP = "C14"
+PAR_OK = True
 LEVEL = "proof"
 RULE = ("60% of the cases use the tree before the call (ReinitIndexes and/or a first ToDistanceMatrix, then 1..3 public edits that "
         "invalidate the index: two tip names exchanged, a tip renamed so that the name order changes, Reroot, RotateInternalNodes; "
